@@ -3,7 +3,8 @@
  R1 intraprocedural edge set of is_sink_call_reachable_from_source_call (exhaustive match,
     follows every edge kind except those leaving the function)
  R2 stop at another source call, return the sink call; visited set guards the worklist
- R3 CWE367 starts after the source call with (source, sink) in configuration order;
+ R3 CWE367 starts after the source call with (source, sink) in configuration order; the verdict for one
+    check call does not depend on a collection filled while iterating over the other check calls;
     CWE243 warning decision as a truth table over its three atoms
  R4 totality: unwrap/expect/panic sites whose operand depends on the analysed program
 """
@@ -187,6 +188,56 @@ def run(run):
             run.undecided("R3", "cwe367|pair-order", "cannot trace the pair components: source=%s sink=%s" % (fmt(a[2]), fmt(a[3])), site)
         else:
             run.check("R3", "cwe367|pair-order", (src_comp, sink_comp) == (0, 1), "configured pairs are (check, use): the search must start at calls of component 0 and look for component 1; found source=component %s sink=component %s" % (src_comp, sink_comp), site)
+        # the verdict for one check call must not depend on other check calls: between the reachability result and the warning
+        # no guard may consult a collection that is filled while iterating (de-duplication by sink callsite drops check calls
+        # on parallel branches that reach the same use call)
+        pushes = [x for x in T.walk_fn(F, fn) if T.is_call(x, "push") and any(T.is_call(y, "generate_cwe_warning") or (y.get("k") == "Adt" and y.get("adt", "").endswith("CweWarning")) for y in T.walk(x))]
+        if not pushes:
+            warn = [x for x in T.walk_fn(F, fn) if T.is_call(x, "generate_cwe_warning")]
+            pushes = warn
+        run.floor("cwe367 warning sites", len(pushes), 1)
+        MUT = ("insert", "push", "remove", "extend", "entry", "retain", "push_back")
+        mutated = {}
+        for x in T.walk_fn(F, fn):
+            if T.is_call(x, MUT) and x.get("a"):
+                r = T.root_var_id(x["a"][0])
+                if r is not None:
+                    mutated.setdefault(r, []).append(x)
+        for i, pnode in enumerate(pushes):
+            stateful, unknown = [], []
+            for (node, conds) in T.paths_to(fn["body"], lambda x: x is pnode):
+                for cd in conds:
+                    if cd[0] != "if":
+                        continue
+                    cn = cd[1]
+                    for y in T.walk(cn):
+                        if T.is_call(y) and y.get("a"):
+                            r = T.root_var_id(y["a"][0])
+                            if r is not None and r in mutated and y.get("n") in ("insert", "contains", "contains_key", "get", "remove", "is_empty", "len"):
+                                # the warnings vector itself is only pushed to, never consulted
+                                stateful.append((y, r))
+            key = "cwe367|verdict-per-check-call|%d" % i
+            # a key that identifies the check call itself (edge / jump / its block) cannot couple different check calls
+            result_ids = set()
+            for lt in T.walk_fn(F, fn):
+                if lt.get("k") == "Let" and any(y is c for y in T.walk(lt["e"])):
+                    result_ids |= {b[0] for b in T.pat_bindings(lt["p"])}
+            dep_on_result = []
+            for y, r in stateful:
+                ids = {z["id"] for a in y["a"][1:] for z in T.walk(a) if z.get("k") in ("Var", "Upvar")}
+                # follow one level of immutable lets
+                for lt in T.walk_fn(F, fn):
+                    if lt.get("k") == "LetStmt" and "i" in lt and any(b[0] in ids for b in T.pat_bindings(lt["p"])):
+                        ids |= {z["id"] for z in T.walk(lt["i"]) if z.get("k") in ("Var", "Upvar")}
+                if ids & result_ids:
+                    dep_on_result.append((y, r))
+            if stateful and not dep_on_result:
+                run.undecided("R3", key, "the warning is guarded by a collection filled during the iteration, keyed by something other than the reachability result: %s" % T.show(stateful[0][0])[:80], F.loc(stateful[0][0]))
+            elif stateful:
+                y, r = dep_on_result[0]
+                run.violated("R3", key, "the warning for a check call is guarded by `%s` on a collection that is filled during the iteration: whether a check call is reported then depends on which other check calls were visited before (e.g. two check calls on parallel branches reaching the same use call: only one is reported)" % T.show(y)[:80], F.loc(y))
+            else:
+                run.holds("R3", key, "", F.loc(pnode))
         # CWE243
         fn = F.fn("check_cwe", mod="cwe_243")
         sy = S.Sym(F)
